@@ -19,6 +19,9 @@ MODELS = {
     "rware-awk-T2@scenarios": ("rware-awk-T2", "robot_warehouse"),
     # two LOADED agents within Manhattan distance 2 of each other, every position x direction pair
     "rware-tiny-T3@pairs": ("rware-tiny-T3", "robot_warehouse"),
+    # agent 1 has carried its shelf away (three different poses), agent 0 stands EMPTY-HANDED on every cell x direction -
+    # in particular on the rack cell the carried shelf came from
+    "rware-tiny-T3@mixed": ("rware-tiny-T3", "robot_warehouse"),
     # LBF: reset states of 6 keys with one food item already marked eaten (so that agents can walk onto its cell)
     "lbf-6x2x2-grid-T3@eaten": ("lbf-6x2x2-grid-T3", "lbf"),
     "lbf-6x2x2-vec-T3@eaten": ("lbf-6x2x2-vec-T3", "lbf"),
@@ -89,6 +92,23 @@ def build_roots(env: Any, model: str, key_seed: int = 0):
         states, descs = ref.corridor_states(env, s0)
         ts = ref.corridor_timesteps(env, states)
         stale = False
+    elif model.endswith("@mixed"):
+        import numpy as np
+
+        q = np.asarray(s0.request_queue).ravel()
+        s1s, d1s = ref.scenario_states(env, s0, agent=1, load_shelf=int(q[1]))
+        carrying = [i for i, d1 in enumerate(d1s) if d1["carrying_shelf"] is not None]
+        chosen = [carrying[0], carrying[len(carrying) // 2], carrying[-1]] if carrying else []
+        parts, descs = [], []
+        for i in chosen:
+            st, ds = ref.scenario_states(env, t_index(s1s, i), agent=0, load_shelf=int(q[0]))
+            keep = [j for j, d0 in enumerate(ds) if d0["carrying_shelf"] is None]
+            parts.append(t_index(st, np.array(keep)))
+            descs += [{"agent0": ds[j], "agent1": d1s[i]} for j in keep]
+        states = jax.tree_util.tree_map(lambda *xs: np.concatenate(xs, axis=0), *parts)
+        n = len(descs)
+        ts = jax.tree_util.tree_map(lambda x: np.repeat(x[None], n, axis=0), ts0)
+        stale = True
     elif model.endswith("@pairs"):
         import numpy as np
 
@@ -133,7 +153,7 @@ def explore(pid: str, model: str, tier: str, seed: int) -> Dict[str, Any]:
     plan.pop("max_states", None)
     plan.pop("time_budget_s", None)
     states, ts, descs, stale = build_roots(env, model)
-    depth = 1 if (not stale or model.startswith("rware-awk") or model.endswith("@pairs") or model.endswith("@triples")) else 2
+    depth = 1 if (not stale or model.startswith("rware-awk") or model.endswith("@pairs") or model.endswith("@triples") or model.endswith("@mixed")) else 2
     if tier == "thorough" and fam == "pac_man":
         depth = 2
     ex = Explorer(env, model, pid, roots=(states, ts), root_desc=descs, monitors=monitors, max_depth=depth,
